@@ -6,7 +6,7 @@ from .. import AnalysisError
 from ..report import Ob
 from ..cfg import calls_at, call_attr, is_self_attr, recv_text, own_exprs, walk_now
 from ..state import Analysis, State, TOP, schedules, sched_calls, sched_action_name, sched_event_type, bind_call, SCHED_PARAMS
-from ..norm import Normalizer, cmp_norm, single_defs
+from ..norm import Normalizer, cmp_norm, cmp_polarity, FrameEnv, single_defs
 from .. import inventory as inv
 from .. import devices as dv
 from .c02 import foreign_deleg_call, construct_and_initialize
@@ -42,10 +42,10 @@ def room_refine(P, c):
     N = Normalizer(P, c)
 
     def h(an, test, truth, st, frame):
-        r = cmp_norm(N, test, None, True)
-        if r and r[1] == '<' and r[0].is_({'self._level': 1, 'self._capacity': -1}):
+        pol = cmp_polarity(N, test, FrameEnv(frame), {'self._level': 1, 'self._capacity': -1}, '<')     # `level < capacity` or its negation `level >= capacity`
+        if pol:
             cur = st.fields.get('#room', TOP)
-            want = 'T' if truth else 'F'
+            want = 'T' if truth == (pol == 1) else 'F'
             if cur in ('T', 'F') and cur != want:
                 return None
             return st.with_field('#room', want) if cur != want else st
@@ -462,23 +462,22 @@ def buffer_hooks():
             f = cl.func
             if not (isinstance(f, ast.Attribute) and is_self_attr(f.value, '_buffer')):
                 continue
-            b = after.fields['#buf']
             if f.attr in ('append', 'insert'):
                 outs = [o.with_field('#buf', {'0': '1', '1': 'M', 'M': 'M'}[o.fields['#buf']]) for o in outs]
-            elif f.attr in ('pop', 'remove', 'popleft'):
-                nxt = []
-                for o in outs:
-                    b = o.fields['#buf']
-                    if b == '0':
-                        nxt.append(o.with_flag('POP-FROM-EMPTY'))
-                    elif b == '1':
-                        nxt.append(o.with_field('#buf', '0'))
-                    else:
-                        nxt.append(o.with_field('#buf', '1'))
-                        nxt.append(o.with_field('#buf', 'M'))
-                outs = nxt
             elif f.attr == 'clear':
                 outs = [o.with_field('#buf', '0') for o in outs]
+        for _ in dv.list_removals(n, '_buffer'):          # pop / remove / popleft / del [i]
+            nxt = []
+            for o in outs:
+                b = o.fields['#buf']
+                if b == '0':
+                    nxt.append(o.with_flag('POP-FROM-EMPTY'))
+                elif b == '1':
+                    nxt.append(o.with_field('#buf', '0'))
+                else:
+                    nxt.append(o.with_field('#buf', '1'))
+                    nxt.append(o.with_field('#buf', 'M'))
+            outs = nxt
         return outs
 
     def refine_hook(an, test, truth, st, frame):
@@ -520,7 +519,7 @@ def buffer_retry(ctx, o):
             if st.fields['#buf'] != '0':
                 o.witness(('nonempty-exit', e))
             if 'POP-FROM-EMPTY' in st.flags:
-                ln = dv.last_node(res, g.exit, st, lambda n: n.kind == 'stmt' and '.pop(' in n.src())
+                ln = dv.last_node(res, g.exit, st, lambda n: bool(dv.list_removals(n, '_buffer')))
                 o.fail(P, f'Buffer.{e}', ln.ast if ln else e, 'the head of the buffer is removed while the buffer may be empty', node=ln,
                        file=c.mod.path, path=res.path_lines(g.exit, st))
             if not J(st.fields) or dv.full(st.fields['_part']) or dv.full(st.fields['_output']):
